@@ -1617,8 +1617,9 @@ fn resolve_types_and_aliases(
     (types_report, aliases_report)
 }
 
-impl Analyzable for Program {
-    fn analyze(&mut self, parent: Option<Rc<Scope>>) -> AnalyzeReport {
+impl Program {
+    // the program scope: a copy of every top-level definition under its name
+    fn definitions(&self, parent: Option<Rc<Scope>>) -> Scope {
         let mut scope = Scope::new(parent);
 
         if let Some(env) = self.env.as_ref() {
@@ -1627,6 +1628,34 @@ impl Analyzable for Program {
             }
         }
 
+        for party in self.parties.iter() {
+            scope.track_party_def(party);
+        }
+
+        for policy in self.policies.iter() {
+            scope.track_policy_def(policy);
+        }
+
+        scope.track_asset_def(&ada_asset_def());
+
+        for asset in self.assets.iter() {
+            scope.track_asset_def(asset);
+        }
+
+        for type_def in self.types.iter() {
+            scope.track_type_def(type_def);
+        }
+
+        for alias_def in self.aliases.iter() {
+            scope.track_alias_def(alias_def);
+        }
+
+        scope
+    }
+}
+
+impl Analyzable for Program {
+    fn analyze(&mut self, parent: Option<Rc<Scope>>) -> AnalyzeReport {
         // environment values and parties share the argument map of every transaction,
         // keyed by lower-cased name
         let mut duplicates = AnalyzeReport::default();
@@ -1678,29 +1707,18 @@ impl Analyzable for Program {
             }
         }
 
-        for party in self.parties.iter() {
-            scope.track_party_def(party);
+        // the scope holds a copy of every definition, and a policy is lowered from its
+        // copy wherever it is named: the expressions of the policies are resolved first,
+        // once per level of policies naming policies (each level nests the copies one
+        // deeper, so only a few), and the scope is built from the resolved ones
+        let mut policies = AnalyzeReport::default();
+
+        for _ in 0..self.policies.len().min(3) {
+            let names = Rc::new(self.definitions(parent.clone()));
+            policies = self.policies.analyze(Some(names));
         }
 
-        for policy in self.policies.iter() {
-            scope.track_policy_def(policy);
-        }
-
-        scope.track_asset_def(&ada_asset_def());
-
-        for asset in self.assets.iter() {
-            scope.track_asset_def(asset);
-        }
-
-        for type_def in self.types.iter() {
-            scope.track_type_def(type_def);
-        }
-
-        for alias_def in self.aliases.iter() {
-            scope.track_alias_def(alias_def);
-        }
-
-        self.scope = Some(Rc::new(scope));
+        self.scope = Some(Rc::new(self.definitions(parent)));
 
         // types are resolved first, while nothing else holds on to the program scope
         // (expressions of policy and asset definitions keep a reference to it)
@@ -1712,8 +1730,6 @@ impl Analyzable for Program {
         let (types, aliases) = resolve_types_and_aliases(scope_rc, &mut types, &mut aliases);
 
         let parties = self.parties.analyze(self.scope.clone());
-
-        let policies = self.policies.analyze(self.scope.clone());
 
         let assets = self.assets.analyze(self.scope.clone());
 
